@@ -75,6 +75,7 @@ type PathStats struct {
 	Unknowns   int
 	GoStmts    int
 	Concretize int
+	Fallbacks  int
 }
 
 // Path is the state of one execution.
@@ -82,6 +83,7 @@ type Path struct {
 	eng    *Engine
 	h      *Harness
 	solver *smt.Solver
+	fallback func(kind string) *smt.Solver // lazily started secondary solvers of this worker
 	st     *smt.Store
 
 	prefix []Decision
@@ -155,9 +157,41 @@ func (p *Path) check(extra ...*smt.Term) smt.Result {
 	p.stats.Queries++
 	r := p.solver.Check(p.st, extra...)
 	if r == smt.Unknown {
+		r = p.fallbackCheck(extra...)
+	}
+	if r == smt.Unknown {
 		p.stats.Unknowns++
 	}
 	return r
+}
+
+// fallbackCheck re-runs a query the primary solver gave up on with the other installed solvers
+// (a portfolio: the path condition is re-asserted from scratch in each of them).
+func (p *Path) fallbackCheck(extra ...*smt.Term) smt.Result {
+	if p.fallback == nil {
+		return smt.Unknown
+	}
+	for _, kind := range []string{"z3-new", "cvc5", "z3"} {
+		if kind == p.solver.Kind {
+			continue
+		}
+		fs := p.fallback(kind)
+		if fs == nil {
+			continue
+		}
+		fs.Reset()
+		fs.Push()
+		for _, c := range p.pc {
+			fs.Assert(p.st, c)
+		}
+		r := fs.Check(p.st, extra...)
+		fs.Reset()
+		p.stats.Fallbacks++
+		if r != smt.Unknown {
+			return r
+		}
+	}
+	return smt.Unknown
 }
 
 func (p *Path) countUnwind(fr *frame, instr ssa.Instruction) {
@@ -438,6 +472,10 @@ func (p *Path) violationCandidate(fr *frame, kind, id, msg string, extra ...*smt
 	case smt.Unsat:
 		return r
 	case smt.Unknown:
+		if fr2 := p.fallbackCheck(extra...); fr2 == smt.Unsat {
+			return smt.Unsat
+		}
+		// sat or unknown in the portfolio as well: without a model from the primary solver it stays inconclusive
 		p.stats.Unknowns++
 		p.inconclusive = append(p.inconclusive, fmt.Sprintf("%s: solver unknown for %s", p.h.Name, id))
 		return r
